@@ -151,7 +151,27 @@ pub fn main(args: Args) -> i32 {
     if let Some(p) = &args.replay {
         let doc = load_replay(p);
         let mut l = Local::default();
-        check_name(&tree.base, doc["replay"]["name"].as_str().unwrap(), &acc, &mut l);
+        if let Some(h) = doc["replay"]["history"].as_array() {
+            let probe = doc["replay"]["probe"].as_str().unwrap();
+            let mut env = Environment::new();
+            env.set_loader(path_loader(&tree.base));
+            for n in h {
+                let n = n.as_str().unwrap();
+                if doc["replay"]["via_include"].as_bool().unwrap_or(false) {
+                    let _ = env.render_str("{% include n ignore missing %}", context! { n => n });
+                } else {
+                    let _ = env.get_template(n).map(|t| t.render(()).ok());
+                }
+            }
+            let got = env.get_template(probe).and_then(|t| t.render(())).map_err(|e| format!("{:?}", e.kind()));
+            let fresh = run_route(&tree.base, "get_template", probe);
+            println!("after {:?}: {:?} -> {:?}; fresh loader: {:?}", h, probe, got, fresh);
+            if Ok(got.clone()) != fresh {
+                acc.fail(Failure { key: "confinement answer_depends_on_history".into(), case: String::new(), detail: format!("{:?} vs fresh {:?}", got, fresh), replay: json!(null) });
+            }
+        } else {
+            check_name(&tree.base, doc["replay"]["name"].as_str().unwrap(), &acc, &mut l);
+        }
         let _ = fs::remove_dir_all(&tree.root);
         let fs_ = acc.take_failures();
         return if fs_.is_empty() {
@@ -211,6 +231,64 @@ pub fn main(args: Args) -> i32 {
         l.flush(&acc);
         total += extra.len() as u64;
     }
+    // histories: one loader instance serves a sequence of lookups; what it answers for the last name
+    // must be what a fresh loader answers (and never a file outside the base), whatever was looked up
+    // before - whether those lookups succeeded, were rejected or named a directory
+    {
+        let probes: Vec<String> = ["a", "secret", "x", "ad/a", "a.", "%2e%2e", "base/a", "outer/secret", "sibling/a", "../secret", ".a", "ad/secret", "a/secret", "nope"].iter().map(|s| s.to_string()).collect();
+        let mut primers: Vec<Vec<String>> = vec![];
+        for a in &segs {
+            primers.push(vec![a.clone()]);
+            for b in &segs {
+                primers.push(vec![format!("{}/{}", a, b)]);
+                primers.push(vec![a.clone(), b.clone()]);
+                if args.tier == Tier::Thorough {
+                    for c in &segs {
+                        primers.push(vec![format!("{}/{}/{}", a, b, c)]);
+                    }
+                }
+            }
+        }
+        for e in ["ad/", "ad//a", "ad/a/", "/ad/a", "ad/./a", "a//", "//", "ad///", "ad/a//x", "nope/", "nope//x"] {
+            primers.push(vec![e.to_string()]);
+            primers.push(vec![e.to_string(), e.to_string()]);
+        }
+        let fresh: Vec<Result<Result<String, String>, String>> = probes.iter().map(|p| run_route(&tree.base, "get_template", p)).collect();
+        acc.count("loader_histories", (primers.len() * probes.len()) as u64);
+        par_items(&primers, &acc, |_, primer, l| {
+            for (pi, probe) in probes.iter().enumerate() {
+                for via_include in [false, true] {
+                    l.evals += 1;
+                    let got = catch(|| {
+                        let mut env = Environment::new();
+                        env.set_loader(path_loader(&tree.base));
+                        for n in primer {
+                            if via_include {
+                                let _ = env.render_str("{% include n ignore missing %}", context! { n => n });
+                            } else {
+                                let _ = env.get_template(n).map(|t| t.render(()).ok());
+                            }
+                        }
+                        env.get_template(probe).and_then(|t| t.render(())).map_err(|e| format!("{:?}", e.kind()))
+                    });
+                    if got == fresh[pi] {
+                        l.outcome("same answer as a fresh loader");
+                        if matches!(&got, Ok(Ok(_))) {
+                            l.nontrivial.insert(fnv(format!("{:?}|{}", primer, probe).as_bytes()));
+                        }
+                    } else {
+                        let escaped = matches!(&got, Ok(Ok(o)) if o.starts_with("OUT:"));
+                        acc.fail(Failure {
+                            key: format!("confinement {} primer_class={}", if escaped { "escaped_after_history" } else { "answer_depends_on_history" }, classify(&primer[0])),
+                            case: format!("{:?} then {:?}{}", primer, probe, if via_include { " (primers through include)" } else { "" }),
+                            detail: format!("after looking up {:?} the same loader answers {:?} for {:?}; a fresh loader answers {:?}", primer, got, probe, fresh[pi]),
+                            replay: json!({"history": primer, "probe": probe, "via_include": via_include}),
+                        });
+                    }
+                }
+            }
+        });
+    }
     acc.count("names", total);
     acc.count("files_inside_base", tree.inside_files as u64);
     acc.sample(json!({"name": "a/../../secret", "routes": ROUTES}));
@@ -223,7 +301,7 @@ pub fn main(args: Args) -> i32 {
             level: "exploration",
             tier: args.tier,
             seed: args.seed,
-            rule: format!("all names of 1..={} segments over the 15-segment alphabet ('', '.', '..', '...', 'a', '.a', 'a.', 'a..b', 'a\\\\b', '..\\\\a', NUL, '%2e%2e', two unicode dot look-alikes, 300-char) joined by '/', plus 23 hand-written traversal spellings, each through get_template, include, extends and import (name computed in the template) against a real tree with 24 files inside the base and OUT canaries in the parent, grandparent and a sibling directory under every name the traversals would reach; oracle: error / missing / content starting with IN:. distinct non-trivial = (route,name) pairs that served a file inside the base", maxlen),
+            rule: format!("all names of 1..={} segments over the 15-segment alphabet ('', '.', '..', '...', 'a', '.a', 'a.', 'a..b', 'a\\\\b', '..\\\\a', NUL, '%2e%2e', two unicode dot look-alikes, 300-char) joined by '/', plus 23 hand-written traversal spellings, each through get_template, include, extends and import (name computed in the template) against a real tree with 24 files inside the base and OUT canaries in the parent, grandparent and a sibling directory under every name the traversals would reach; oracle: error / missing / content starting with IN:. histories: one loader instance looks up every primer (all names of 1 and 2 segments, every pair of one-segment names, thorough also 3 segments, plus 11 trailing/inner/leading-slash spellings, through get_template and through include) and then each of 14 probe names (inside, hidden, missing, and names that exist relative to ancestors of the base); the answer must equal a fresh loader's. distinct non-trivial = (route,name) pairs that served a file inside the base", maxlen),
             exhaustive: true,
             bound: json!({"segments": segments().iter().map(|s| if s.len() > 20 { "x*300".to_string() } else { s.clone() }).collect::<Vec<_>>(), "max_segments": maxlen, "routes": ROUTES}),
             assumptions: vec!["Unix path semantics; symbolic links are outside the property".into()],
